@@ -630,7 +630,7 @@ static void DecodeFLOAT(Word Extended) {
 static void DecodeDATA_1750(Word Code) {
     UNUSED(Code);
 
-    DecodeDATA(UInt16, UInt16);
+    DecodeDATA(Int16, Int16);
 }
 
 /*-------------------------------------------------------------------------*/
